@@ -6,7 +6,8 @@ PROP = dict(
     trusted_base=COMMON_TB,
     rule="a real node (portal.NewNode: history, beacon, state networks with their pebble storage adapters; validators over a harness oracle) receives, under recover and a 40 s watchdog: every 0..3-byte prefix of every message code / selector on all five request and response paths, uTP stream bodies, storage Get/Put and ValidateContent with peer-chosen keys (empty, 1 byte, every type byte, short and long bodies), a stateful beacon historical-summaries prelude (record stored, then keys of length 0..12), every well-formed message kind unmutated and under truncation / extension / bit flip / offset shift / code and selector rewrite, and random bytes; one case = one delivered input; non-trivial = input longer than one byte; distinct by sha1 of the line",
     nontrivial=lambda l: len(l.split(" | ")[0].split(" ")[-1]) > 2,
-    modelled=["SSZ decoders, handlers, validators and database calls behind the dispatch are Section functions assumed not to panic (they are the subject of C02, C03, C08, C09, C11, C13, C14, C15); only the recover/watchdog run covers them here",
+    modelled=["first layer (Model/Dispatch.v): what lies behind the dispatch is a universally quantified function with a no-panic hypothesis; second layer (Model/DispatchFull.v): those hypotheses are discharged with the real models - Wire.v decoders (C14 totality), handle_find_nodes (C11), handle_find_content (C08), handle_offer + version negotiation (C09/C19), ping/pong payload processing (C20), accept parsing and stream framing (C09/C15) - giving unconditional totality theorems for the TALKREQ and TALKRESP paths",
+              "still abstract after the composition: uTP (dial/accept/read/timeouts), goroutines and locks ('the call returns' is not a theorem), table mutation by addInboundNode/addFoundNode, the storage adapters behind storage.Get (their key dispatch is C01_key_dispatch_total), content validation (C02/C03/C13), ENR RLP/signature checks",
               "discv5 / uTP library code and goroutine scheduling: exercised, not modelled"],
     assumptions=["partial by nature: totality of the modelled dispatch and indexing is proved; library panics and 'the call returns' are covered by the recover / watchdog run only",
                  "replay re-executes single inputs after the standard beacon prelude (one stored historical-summaries record)"],
@@ -17,6 +18,6 @@ PROP = dict(
 )
 MANIFEST = dict(
     level="Proof (Coq, no axioms) that no index or slice expression of the modelled entry points - TALKREQ dispatch, the four TALKRESP processors, the uTP stream-body handler, the content-key dispatch of the three networks' storage adapters and validators, the beacon historical-summaries record handling - can panic for any byte string, any stored record and any order of operations, given that the code behind the dispatch does not; refutation lemmas (with witnesses) for the code as found, which were replayed on the real node and repaired by four fix: commits. Tied to the code by running a real three-network node under recover and a watchdog on boundary-directed and mutated inputs on every run. PARTIAL: library panics, handler internals and liveness are exercised, not proved.",
-    note="Trusted: Coq kernel, extraction + driver, Go harness. Sub-handlers are universally quantified functions with a no-panic hypothesis. The harness calls handlers directly (same goroutine, recover), not through discv5.",
+    note="Trusted: Coq kernel, extraction + driver, Go harness. The composed theorems (DispatchFull) discharge the sub-handler hypotheses with the models of C08/C09/C11/C14/C19/C20; uTP, scheduling, table mutation, storage internals and content validation stay abstract. Direct handler calls run under recover; the live attack runs a full node in a child process over loopback discv5; the panic scan feeds the generators of C02/C03/C13/C14 through their own drivers.",
     technique="Coq totality proof over a model of every index/slice expression on the remote entry points + recover/watchdog differential run against a real node",
 )
